@@ -128,4 +128,66 @@ def check(ctx, rid, subdirs=("seqm/seqm_functions", "seqm/basics.py")):
                         else:
                             ctx.ok(rid, f"{short(m.rel)}:{qual}", f"where-branch `{short(norm(branch), 60)}`: {what} `{short(norm(operand), 40)}` is unrelated to the condition "
                                    f"(roots {sorted(r_op)[:3]} vs {sorted(r_c)[:3]})")
+    n_sites += check_masked_overwrite(ctx, rid, subdirs)
     return n_sites
+
+
+def check_masked_overwrite(ctx, rid, subdirs):
+    """`T = f(x) / g(x)` ... `T[mask] = constant`: the rows selected by the mask are overwritten in the forward pass, but they went through the division first; when the mask
+    selects exactly the rows on which the denominator vanishes (mask and denominator derive from the same inputs), autograd differentiates 0/0 on those rows and the gradient of
+    *every* upstream quantity becomes NaN.  The safe order -- overwrite the operand first, then normalise -- is what the repository uses (rotate_with_quaternion)."""
+    repo = ctx.repo
+    n = 0
+    for m in repo.modules(*subdirs):
+        exempt = set()
+        for cname, cls in m.classes.items():
+            if any("Function" in norm(b) for b in cls.bases):
+                for st in cls.body:
+                    if isinstance(st, ast.FunctionDef):
+                        exempt.add(f"{cname}.{st.name}")
+        for qual, func in m.functions.items():
+            if qual in exempt:
+                continue
+            stores = [st for st in ast.walk(func) if isinstance(st, ast.Assign) and len(st.targets) == 1 and isinstance(st.targets[0], ast.Subscript)
+                      and isinstance(st.targets[0].value, ast.Name) and isinstance(st.targets[0].slice, ast.Name) and m.qualname_of(st) == qual]
+            if not stores:
+                continue
+            defs = _defs(func)
+            params = {a.arg for a in func.args.args + func.args.kwonlyargs}
+            for st in stores:
+                tname, mname = st.targets[0].value.id, st.targets[0].slice.id
+                mdefs = defs.get(mname, [])
+                if len(mdefs) != 1 or not is_threshold(mdefs[0], defs):
+                    continue
+                # the definition of T that reaches this store: the last plain assignment to T before it
+                tdefs = [d for d in ast.walk(func) if isinstance(d, ast.Assign) and len(d.targets) == 1 and isinstance(d.targets[0], ast.Name) and d.targets[0].id == tname
+                         and d.lineno < st.lineno]
+                if not tdefs:
+                    continue
+                tdef = max(tdefs, key=lambda d: d.lineno).value
+                sing = []
+                for x in ast.walk(tdef):
+                    if isinstance(x, ast.BinOp) and isinstance(x.op, ast.Div):
+                        sing.append(("division by", x.right))
+                    elif isinstance(x, ast.Call) and (call_name(x) or "") in SING_CALLS and x.args:
+                        sing.append((f"{call_name(x)} of", x.args[0]))
+                for what, operand in sing:
+                    n += 1
+                    if protected(operand, defs):
+                        continue
+                    shared = roots(operand, defs, params) & roots(mdefs[0], defs, params)
+                    # the operand is computed from values that were themselves repaired on the masked rows before (overwrite-then-normalise): safe
+                    repaired_before = any(isinstance(s2, ast.Assign) and isinstance(s2.targets[0], ast.Subscript) and isinstance(s2.targets[0].value, ast.Name)
+                                          and isinstance(s2.targets[0].slice, ast.Name) and s2.targets[0].slice.id == mname and s2.lineno < max(tdefs, key=lambda d: d.lineno).lineno
+                                          and s2.targets[0].value.id in {x.id for x in ast.walk(operand) if isinstance(x, ast.Name)} |
+                                          {y.id for x in ast.walk(operand) if isinstance(x, ast.Name) for v in defs.get(x.id, []) for y in ast.walk(v) if isinstance(y, ast.Name)}
+                                          for s2 in ast.walk(func))
+                    if shared and not repaired_before:
+                        ctx.fail(rid, m, st, qual, f"{tname}[{mname}] = ... after {what} {short(norm(operand), 30)}",
+                                 f"`{short(norm(st), 80)}` overwrites the rows selected by `{mname}` only after `{tname} = {short(norm(tdef), 50)}` ({what} `{short(norm(operand), 30)}`) was "
+                                 f"evaluated for every row; mask and {what.split()[0]} operand both derive from {sorted(shared)}, so on the masked rows the operand is (near) zero: the forward "
+                                 f"value is repaired but autograd differentiates the singular expression there (NaN forces / parameter gradients, no error, no flag)")
+                    else:
+                        ctx.ok(rid, f"{short(m.rel)}:{qual}", f"masked overwrite `{short(norm(st), 50)}`: the singular operand was repaired on the masked rows before it is used"
+                               if repaired_before else f"masked overwrite `{short(norm(st), 50)}` is unrelated to the {what.split()[0]} operand", nontrivial=False)
+    return n
